@@ -225,9 +225,12 @@ func sizeStmts(ss []*Stmt) int {
 		}
 		for _, c := range s.Cases {
 			n += 1 + sizeExpr(c.Val) + sizeStmts(c.Body)
+			if c.Val == nil {
+				n += 2 // `default:` counts more than `case 0:` (canonical form prefers cases)
+			}
 		}
 		if s.K == SLoop {
-			n += s.N // fewer iterations = smaller
+			n += 3 + s.N // fewer iterations = smaller; a loop is bigger than its explicit step
 			if s.Key != "" {
 				n++
 			}
